@@ -9,6 +9,7 @@ import KlogV.Lemmas.Grammar
 import KlogV.Props.Tables
 import KlogV.Props.Rx.Values
 import KlogV.Props.Rx.Summary
+import KlogV.Props.Rx.Model
 namespace KlogV.C01
 
 abbrev HasLongDigitRun (l : List Char) : Prop := KlogV.HasLongDigitRun l
